@@ -21,6 +21,7 @@ if replay != "-":
     json.dump({"property": pid, "expect": "pass" if status == "fixed" else sig, "note": what,
                "case": case}, open(os.path.join(HERE, rp), "w"), indent=1, sort_keys=True)
     ent["regress"] = rp
-kf["findings"] = [f for f in kf["findings"] if not (f["property"] == pid and f["signature"] == sig)] + [ent]
+kf["findings"] = [f for f in kf["findings"] if not (f["property"] == pid and f["signature"] == sig
+                                                     and f.get("commit") == ent.get("commit"))] + [ent]
 json.dump(kf, open(kfp, "w"), indent=1)
 print("recorded", pid, sig, status)
